@@ -55,7 +55,7 @@ var c18First = []string{
 	"sort_by(oa, &n)", "sort_by(oa, &k)", "split(s, ',')", "split(s, '', `1`)", "starts_with(s, 'a')", "sum(a[?@])", "to_array(n)", "to_array(a)", "to_number(s)", "to_number('1e2')", "to_number('0.10')",
 	"to_string(o)", "to_string(n)", "to_string(s)", "trim(s)", "trim_left(s)", "trim_right(s, ' ')", "type(n)", "type(@)", "upper(s)", "values(o)", "zip(a, sa)", "zip(sa, a, a)",
 	"sum(`[]`)", "avg(`[]`)", "max(`[]`)", "group_by(`[]`, &k)", "sort_by(`[]`, &k)", "keys(`{}`)", "values(`{}`)", "items(`{}`)", "from_items(`[]`)", "merge(`{}`)", "zip(`[]`)", "split('', '')", "map(&@, `[]`)",
-	"oa[*].n", "oa[*].k", "oa[1:].n", "oa[::-1].k", "oa[*].n | [0]", "oa[*].[n][0]", "abs(`1e7000`)", "-`1e7000`", "max([`1e7000`, n])", "min([`-4e6200`])", "ceil(`-4e6200`)", "floor(`1e7000`)", "[`1e7000`]", "`1e7000`", "sort([`1e7000`, n])",
+	"merge(`{}`, `{}`)", "merge(o, `{}`)", "{s: merge(`{}`, `{}`), t: from_items(`[]`)}", "group_by(`[]`, &k)", "merge(`{}`)", "sort_by(oa, &n) | [-1]", "oa | [-1]", "oa[*][-1]", "[[-1], [0]]", "a | [300]", "oa[*].n", "oa[*].k", "oa[1:].n", "oa[::-1].k", "oa[*].n | [0]", "oa[*].[n][0]", "abs(`1e7000`)", "-`1e7000`", "max([`1e7000`, n])", "min([`-4e6200`])", "ceil(`-4e6200`)", "floor(`1e7000`)", "[`1e7000`]", "`1e7000`", "sort([`1e7000`, n])",
 	"a[?`false`]", "oa[?k == 'none']", "oa[?k == 'none'].n", "a[5:]", "o.*.missing", "[a[5:], oa[?`false`]]", "s[0:2]", "s[::-1]", "s[5:]", "a[*][0]", "oa[].k", "a[][]", "[[1]][]", "(a)[*]", "a[*] | [*]",
 }
 
@@ -63,7 +63,7 @@ var c18Second = []string{
 	"type(@)", "@", "[0]", "[*]", "length(@)", "to_string(@)", "@ == @", "sort(@)", "keys(@)", "@ + `1`", "[]", "*", "k", "[?@]", "[-1]", "[1:]", "to_array(@)", "reverse(@)", "not_null(@)", "values(@)", "items(@)",
 	"abs(@)", "ceil(@)", "sum(@)", "max(@)", "join(',', @)", "contains(@, `1`)", "to_number(@)", "lower(@)", "[@]", "{v: @}", "@[0]", "@.*", "@ < `2`", "-@", "!@", "@ && 'y'", "map(&type(@), @)", "sort_by(@, &n)",
 	"group_by(@, &k)", "from_items(@)", "merge(@, @)", "zip(@, @)", "[*].k", "[*].n", "length(to_string(@))", "split(@, ',')", "pad_left(@, `4`)", "trim(@)", "find_first(@, 'a')", "floor(@)", "avg(@)", "min(@)",
-	"upper(@)", "starts_with(@, 'a')", "replace(@, 'a', 'b')", "type(@[0])", "[*][0]", "x", "[?k == 'x']", "k.type(@)", "[0].type(@)", "(k | type(@))", "k.not_null(@, 'd')", "x.to_array(@)", "[0] | [0].to_string(@)", "k.k.length(to_array(@))", "@ * `2` == @ + @", "[::-1]", "*.k", "to_array(@)[0]", "@ == `[]`", "@ == `null`",
+	"upper(@)", "starts_with(@, 'a')", "replace(@, 'a', 'b')", "type(@[0])", "[*][0]", "x", "[?k == 'x']", "k.type(@)", "[0].type(@)", "(k | type(@))", "k.not_null(@, 'd')", "x.to_array(@)", "[0] | [0].to_string(@)", "k.k.length(to_array(@))", "@ * `2` == @ + @", "[::-1]", "*.k", "to_array(@)[0]", "@ == `[]`", "@ == `null`", "[-2]", "[256]", "[-300]", "length([-1])", "[[-1], [0]]", "[*][-1]", "type([-1])",
 	// probes that bind variables of their own (to null, to a part of the result) under names the first expression may have used
 	"let $v = missing in [$v, type($v)]", "let $v = `null` in type($v)", "let $v = @[99] in [$v]", "let $v = @ in let $v = missing in type($v)", "let $w = missing, $v = [0] in [$v, $w]", "let $v = @ in [*].[type($v)]",
 }
